@@ -197,6 +197,27 @@ def _run(ctx):
             ctx.count("rejections")
             continue
         ctx.violation("out-of-range-accepted:modulus", f"c_{args!r} was accepted and gave {o!r}", data={"args": args})
+    # ... exhaustively: every two-digit spelling over 0..9 and every four-digit spelling over 0..4, as string, as integer and as
+    # separate arguments, is accepted exactly when all its digits are in range (1..6 resp. 1..3)
+    import itertools as _it
+    for digits in list(_it.product(range(10), repeat=2)) + list(_it.product(range(5), repeat=4)):
+        valid = all(1 <= d_ <= (6 if len(digits) == 2 else 3) for d_ in digits)
+        text = "".join(str(d_) for d_ in digits)
+        spellings = [("string", (text,)), ("arguments", tuple(digits))]
+        if digits[0] != 0:
+            spellings.append(("integer", (int(text),)))
+        for how, args in spellings:
+            try:
+                o = c_(*args)
+                accepted = True
+            except Exception:
+                accepted = False
+                ctx.count("rejections")
+            ctx.evaluation(f"exhaustive-{len(digits)}-digit-{how}", (how, digits))
+            if accepted and not valid:
+                ctx.violation("out-of-range-accepted:modulus:" + how, f"c_{args!r} was accepted and gave {o!r}", data={"args": [str(a_) for a_ in args]})
+            elif valid and not accepted:
+                ctx.violation("valid-spelling-refused:" + how, f"c_{args!r} was refused", data={"args": [str(a_) for a_ in args]})
     bad_e = [(0,), (7,), (-1,), (10,), (44,), (14,), ("",), ("4",), ("123",), (1, 4), (0, 1), (4, 4), (1, 0), (-1, 1), (111,), ("41",)]
     for args in bad_e:
         ctx.evaluation("out-of-range-strain", ("bad-e", args))
